@@ -130,6 +130,11 @@ impl NavigationState {
     }
 
 
+    /// Forget the place markers: they refer to nodes of the expression that is being replaced
+    pub fn clear_place_markers(&mut self) {
+        self.place_markers = Default::default();
+    }
+
     // defining reset_start_time because of the following message if done inline
     // attributes on expressions are experimental
     // see issue #15701 <https://github.com/rust-lang/rust/issues/15701> for more information
